@@ -64,6 +64,13 @@ func TestVerifyFunctions(t *testing.T) {
 				if fs.nilRest {
 					kind += ":nil-rest"
 				}
+				if fs.relabelNil {
+					kind += ":relabelled"
+					hostileLayout = true
+				}
+				if fs.emptyPSH {
+					kind += ":empty-psh"
+				}
 				if fs.layout != "" {
 					kind += ":layout-" + fs.layout
 					hostileLayout = true
